@@ -17,7 +17,7 @@ import (
 // so an edit of one of these functions in the Go source breaks a named proof.  The translator does no reasoning: anything
 // outside its small subset becomes an EOpaque/SOpaque node carrying the source text.
 
-var fnsToTranslate = []string{"calcEndtime", "killerSlot", "nextMoveWins", "closeToMate", "fullMovesToMate", "pliesToMate"}
+var fnsToTranslate = []string{"calcEndtime", "killerSlot", "nextMoveWins", "closeToMate", "fullMovesToMate", "pliesToMate", "terminalNodeScore"}
 
 func coqStr(s string) string {
 	return "\"" + strings.ReplaceAll(s, "\"", "\"\"") + "\""
@@ -71,6 +71,10 @@ func (t *translator) expr(e ast.Expr) string {
 			return "EBin " + op + " (" + t.expr(x.X) + ") (" + t.expr(x.Y) + ")"
 		}
 	case *ast.CallExpr:
+		if _, ok := x.Fun.(*ast.SelectorExpr); ok && len(x.Args) == 0 {
+			// a method call without arguments (e.g. a query of the position): a named input of the function
+			return "EInput " + coqStr(t.text(e))
+		}
 		if f, ok := x.Fun.(*ast.Ident); ok {
 			var args []string
 			for _, a := range x.Args {
@@ -149,6 +153,14 @@ func (t *translator) stmt(s ast.Stmt) []string {
 	case *ast.ReturnStmt:
 		if len(x.Results) == 1 {
 			return []string{"SReturn (" + t.expr(x.Results[0]) + ")"}
+		}
+	case *ast.IncDecStmt:
+		if id, ok := x.X.(*ast.Ident); ok {
+			op := "OAdd"
+			if x.Tok == token.DEC {
+				op = "OSub"
+			}
+			return []string{"SOpAssign " + coqStr(id.Name) + " " + op + " (EInt (1))"}
 		}
 	case *ast.EmptyStmt:
 		return nil
